@@ -46,12 +46,16 @@ type verifRecorder struct {
 	lastErr                    error
 	lastEntry                  *base.SentinelEntry
 	lastRt                     uint64
+	boom                       bool // panics after recording that the entry passed (a statistic slot behind the built-in one)
 }
 
 func (r *verifRecorder) Order() uint32 { return 9000 }
 func (r *verifRecorder) OnEntryPassed(ctx *base.EntryContext) {
 	r.passed++
 	r.lastRes, r.lastBatch = ctx.Resource.Name(), ctx.Input.BatchCount
+	if r.boom {
+		panic("statistic slot panics")
+	}
 }
 func (r *verifRecorder) OnEntryBlocked(ctx *base.EntryContext, b *base.BlockError) {
 	r.blocked++
@@ -118,6 +122,10 @@ func VerifC01() {
 			tt := rt.Choice(2 + rt.Param("DEFTT")) // DEFTT=1: a third choice, no traffic-type option (the documented default is Outbound)
 			inbound := tt == 0
 			b := rt.U32n("batch", 10)
+			noBatch := rt.Param("NOBATCH") != 0 && rt.Bool("noBatchOption") // no batch option: the documented default is 1
+			if noBatch {
+				b = 1
+			}
 			if pre {
 				rule.mode = 4
 			} else {
@@ -127,14 +135,18 @@ func VerifC01() {
 			if rule.mode == 4 { // the prepare phase panics (the rule phase is never reached)
 				prep.boom, prepPanics = true, true
 			}
+			rec.boom = rule.mode == 5 // the request passes; a statistic slot behind the built-in one panics when told so
 			p0, b0, c0 := rec.passed, rec.blocked, rec.completed
 			var e *base.SentinelEntry
 			var blk *base.BlockError
-			if tt < 2 {
-				e, blk = Entry(names[r], WithSlotChain(sc), WithBatchCount(b), WithTrafficType(types[tt]))
-			} else {
-				e, blk = Entry(names[r], WithSlotChain(sc), WithBatchCount(b))
+			opts := []EntryOption{WithSlotChain(sc)}
+			if !noBatch {
+				opts = append(opts, WithBatchCount(b))
 			}
+			if tt < 2 {
+				opts = append(opts, WithTrafficType(types[tt]))
+			}
+			e, blk = Entry(names[r], opts...)
 			rt.Reach("c01.entry")
 			rt.Assert((e != nil) != (blk != nil), "every Entry yields exactly one of an entry and a block error")
 			rt.Assert((e != nil) == (rule.mode != 2), "blocked iff a rule-check slot blocked; a panicking rule check passes the request")
@@ -162,7 +174,7 @@ func VerifC01() {
 						return nil
 					})
 				}
-				if rule.mode == 3 {
+				if rule.mode == 3 || rule.mode == 5 {
 					l.err = e.Context().Err() // the internal panic is recorded as the entry's error (upstream design)
 					rt.Assert(l.err != nil, "an internal panic is recorded on the entry")
 				}
